@@ -22,6 +22,8 @@ type SCtx struct {
 	locals   bool // may refer to named locals of e.fn
 	depth    int
 	inQuant  bool
+	acq      *State
+	preferLocals bool // identifiers name the current value of the Go variable (loop invariants), not the parameter's entry value
 }
 
 // loaded: a value read from the heap of state sc.st satisfies the type facts of that state (all stored
@@ -170,6 +172,17 @@ func (sc *SCtx) eval(x SExpr) (Val, types.Type, error) {
 
 func (sc *SCtx) ident(name string) (Val, types.Type, error) {
 	e := sc.e
+	if sc.preferLocals && sc.locals {
+		if _, isParam := e.paramVals[name]; isParam {
+			if as := e.allocByName[name]; len(as) > 0 {
+				a := as[0]
+				t := a.Type().(*types.Pointer).Elem()
+				if pv, ok := e.vals[a]; ok {
+					return e.loadVal(sc.st, pv, t), t, nil
+				}
+			}
+		}
+	}
 	if v, ok := sc.vars[name]; ok {
 		return v, sc.vtypes[name], nil
 	}
@@ -508,7 +521,9 @@ func (sc *SCtx) call(x SCall) (Val, types.Type, error) {
 		if sc.old == nil {
 			return Val{}, nil, fmt.Errorf("old() not available here")
 		}
-		return sc.with(sc.old).eval(x.Args[0])
+		o := sc.with(sc.old)
+		o.preferLocals = false
+		return o.eval(x.Args[0])
 	case "len", "cap":
 		v, t, err := arg(0)
 		if err != nil {
@@ -722,9 +737,12 @@ func (sc *SCtx) call(x SCall) (Val, types.Type, error) {
 			return Val{}, nil, fmt.Errorf("heap(\"T.f\") expects a string literal")
 		}
 		name := "H:" + s.Val
-		srt, ok := e.compSort[name]
-		if !ok {
-			return Val{}, nil, fmt.Errorf("unknown heap %s", s.Val)
+		if strings.Contains(s.Val, ":") {
+			name = s.Val
+		}
+		srt, err := e.compSortOf(name)
+		if err != nil {
+			return Val{}, nil, err
 		}
 		return tv(e.comp(sc.st, name, srt)), nil, nil
 	case "traced":
@@ -760,6 +778,14 @@ func (sc *SCtx) call(x SCall) (Val, types.Type, error) {
 			}
 			as = append(as, s)
 			ts = append(ts, args[i].T)
+		}
+		for _, r := range fn.Reads {
+			srt, err := e.compSortOf(r)
+			if err != nil {
+				return Val{}, nil, fmt.Errorf("spec fun %s reads %s: %v", fn.Name, r, err)
+			}
+			as = append(as, srt)
+			ts = append(ts, e.comp(sc.st, r, srt))
 		}
 		e.decls.fun("sf_"+fn.Name, as, rs)
 		return tv(app(rs, "sf_"+fn.Name, ts...)), rt, nil
@@ -833,4 +859,54 @@ func (sc *SCtx) lvalAddr(x SExpr) (Val, types.Type, error) {
 		return sc.elemAddr(v, t, iv.T)
 	}
 	return Val{}, nil, fmt.Errorf("unsupported modifies path")
+}
+
+// compSortOf derives the sort of a state component from its name (H:pkg.T.f, MV:k:v, MP:k, E:s, G:pkg.name, X:ghost).
+func (e *Enc) compSortOf(name string) (string, error) {
+	if s, ok := e.compSort[name]; ok {
+		return s, nil
+	}
+	switch {
+	case strings.HasPrefix(name, "MV:"):
+		p := strings.SplitN(name[3:], ":", 2)
+		if len(p) == 2 {
+			return arrSort(SInt, arrSort(p[0], p[1])), nil
+		}
+	case strings.HasPrefix(name, "MP:"):
+		return arrSort(SInt, arrSort(name[3:], SBool)), nil
+	case strings.HasPrefix(name, "E:"):
+		return arrSort(SInt, arrSort(SInt, name[2:])), nil
+	case strings.HasPrefix(name, "H:"):
+		i := strings.LastIndex(name, ".")
+		if i > 2 {
+			t, err := e.P.resolveType(name[2:i], e.pkg)
+			if err != nil {
+				return "", err
+			}
+			if st, ok := t.Underlying().(*types.Struct); ok {
+				for k := 0; k < st.NumFields(); k++ {
+					if st.Field(k).Name() == name[i+1:] {
+						return arrSort(SInt, sortOf(st.Field(k).Type())), nil
+					}
+				}
+			}
+		}
+	case strings.HasPrefix(name, "G:"):
+		i := strings.Index(name, ".")
+		if i > 2 {
+			if p := e.P.ByName[name[2:i]]; p != nil {
+				if v, ok := p.Scope().Lookup(name[i+1:]).(*types.Var); ok {
+					return sortOf(v.Type()), nil
+				}
+			}
+		}
+	case strings.HasPrefix(name, "X:"):
+		for _, g := range e.P.Spec.Ghosts {
+			if g.Name == name[2:] {
+				s, _ := sortOfSpecType(e.P, g.Type, e.pkg)
+				return s, nil
+			}
+		}
+	}
+	return "", fmt.Errorf("cannot determine the sort of component %s", name)
 }
